@@ -64,4 +64,3 @@ LEVEL_TEXT = ("Machine-checked for every accepted trace of the thread model (eve
               "checked by the same automaton inside Coq and whose traces are accepted by M6.")
 LEVEL_NOTE = "Trusted: as C01. The automaton speaks about the harness components' callbacks; attachment/load ordering is launcher code executed before Thread.start (visible in every trace as the prefix before the first start label)."
 DESIGN_REF = "DESIGN.md §4 C09"
-CLAIMED = False
